@@ -428,9 +428,8 @@ pub(super) fn execute_delete_on_rows<S: GraphSnapshot>(
 
     ensure_non_detach_delete_safety(snapshot, txn, detach, &nodes_to_delete, &seen_edges)?;
 
+    let mut detached_edges: std::collections::HashSet<EdgeKey> = std::collections::HashSet::new();
     if detach {
-        let mut detached_edges: std::collections::HashSet<EdgeKey> =
-            std::collections::HashSet::new();
         for &node_id in &nodes_to_delete {
             for edge in snapshot.neighbors(node_id, None) {
                 if detached_edges.insert(edge) {
@@ -454,6 +453,10 @@ pub(super) fn execute_delete_on_rows<S: GraphSnapshot>(
     }
 
     for edge in edges_to_delete {
+        // already removed (and counted) with one of the detached nodes
+        if detached_edges.contains(&edge) {
+            continue;
+        }
         tombstone_edge_with_properties(snapshot, txn, edge)?;
         deleted_count += 1;
     }
@@ -574,9 +577,8 @@ pub(super) fn execute_delete<S: GraphSnapshot>(
     ensure_non_detach_delete_safety(snapshot, txn, detach, &nodes_to_delete, &seen_edges)?;
 
     // If detach=true, delete all edges connected to nodes being deleted
+    let mut detached_edges: std::collections::HashSet<EdgeKey> = std::collections::HashSet::new();
     if detach {
-        let mut detached_edges: std::collections::HashSet<EdgeKey> =
-            std::collections::HashSet::new();
         for &node_id in &nodes_to_delete {
             // Get all edges connected to this node and delete them
             for edge in snapshot.neighbors(node_id, None) {
@@ -602,6 +604,10 @@ pub(super) fn execute_delete<S: GraphSnapshot>(
 
     // Delete explicitly targeted edges.
     for edge in edges_to_delete {
+        // already removed (and counted) with one of the detached nodes
+        if detached_edges.contains(&edge) {
+            continue;
+        }
         tombstone_edge_with_properties(snapshot, txn, edge)?;
         deleted_count += 1;
     }
